@@ -74,3 +74,84 @@ def rec_ok(f):
     if t:
         return [rec_ok(f)]
     return []
+
+
+def countdown_ok(f, n):
+    while n > 0:
+        f.read(1)
+        n -= 1
+
+
+def shift_ok(value):
+    remaining = value >> 7
+    out = []
+    while remaining > 0:
+        out.append(remaining & 0x7F)
+        remaining >>= 7
+    return out
+
+
+def len_bound_ok(f, n):
+    items = []
+    while len(items) < n:
+        items.append(f.read(1))
+    return items
+
+
+def guard_bounded_ok(f, end):
+    while f.tell() < end:
+        f.seek(f.tell() + 4)
+
+
+def flag_drain_ok(table):
+    order = []
+    while table:
+        found = False
+        for k in list(table):
+            if table[k]:
+                continue
+            order.append(k)
+            found = True
+            table.pop(k)
+        if found is False:
+            raise ValueError("cycle")
+    return order
+
+
+def opaque_seek_undecided(f, index):
+    while True:
+        (n,) = unpack('<I', f.read(4))
+        if n == 0:
+            break
+        f.seek(index[n])  # target not understood: neither certified nor a definite non-progress path
+
+
+def value_loop_undecided(n):
+    while n != 1:
+        n = n // 2 if n % 2 == 0 else 3 * n + 1
+
+
+def rec_stream_bad(f):
+    z = f.read(1)  # b'' at EOF: nothing is consumed and the recursion goes on
+    if z == b'\x00':
+        return []
+    return [rec_stream_bad(f)]
+
+
+def retry_state_undecided(f, tries):
+    while tries.count < 3:  # the exit depends on state that a call on the path may change
+        f.seek(0)
+        unpack('<I', f.read(4))
+        tries.bump()
+
+
+def carried_flag_irrelevant_bad(f, limit):
+    size = 0
+    i = 0
+    while f.tell() < limit:
+        if size != 0 and i >= size:  # cannot fire while size stays 0
+            break
+        entry = f.read(4)
+        if any(entry):
+            (size,) = unpack('<I', entry)
+        i += 1
